@@ -13,6 +13,7 @@ import XrsVerif.Proofs.ILViewshedDel
 import XrsVerif.Proofs.ILViewshedLift
 import XrsVerif.Proofs.ILVsNV
 import XrsVerif.Proofs.ILVsSweepFill
+import XrsVerif.Proofs.ILVsSweepRen
 import XrsVerif.Proofs.ILViewshedFixOrder
 import XrsVerif.Proofs.ILViewshedDelRefines
 import XrsVerif.Proofs.ILViewshedDelOrder
@@ -1599,12 +1600,60 @@ theorem generated_center_event [Trig α] (hq : QryContract (NV α) qryLoop qP) (
     have : ¬ query ILVs.smallestK t0 K a g ≤ g := fun hle => hvis (hdec.mp hle)
     simp [setS_apply, this]
 
+/-- **the contract of the inlined `_max_grad_in_status_struct` holds** (for every number type): the copy inside the generated
+    sweep is the stand-alone `Gen.IL.vsQuery` renamed (`qryLoop_is_renaming`), so `vsQuery_refines` applies to it
+    (`exec_ren`, `exec_renA`), and it writes no array and no scalar outside its prefix (`exec_frame`) -/
+theorem generated_query_contract {F : Type} [Fl F] : QryContract F qryLoop qP := qryContract
+
+/-- **the four inlined status-tree routines of the generated sweep are the stand-alone programs renamed**: scalars by a
+    duplicate-checked table (the routine's prefix, inline counters shifted), the array parameters replaced by the sweep's
+    arrays (`tree_vals ↦ status_values`, `tree_nodes ↦ status_struct`, `value ↦ status_node`) -/
+theorem generated_tree_routines_are_renamings :
+    ILVs.renAS (ILVs.swapT arrTbl) (ILVs.renS (ILVs.swapT qryTbl) Gen.IL.vsQuery.body) = qryLoop ∧
+    ILVs.renAS (ILVs.swapT arrTbl) (ILVs.renS (ILVs.swapT insFillTbl) Gen.IL.vsInsert.body) = insFill ∧
+    ILVs.renAS (ILVs.swapT arrTbl) (ILVs.renS (ILVs.swapT insLoopTbl) Gen.IL.vsInsert.body) = insLoop ∧
+    ILVs.renAS (ILVs.swapT arrTbl) (ILVs.renS (ILVs.swapT delTbl) Gen.IL.vsDelete.body) = delLoop :=
+  ⟨qryLoop_is_renaming, insFill_is_renaming, insLoop_is_renaming, delLoop_is_renaming⟩
+
+/-- non-vacuity of the query contract: the status structure right after the set-up (the dummy root alone, row 1 = NIL) -- the
+    inlined query at key 1 runs to its end inside the sweep's state and changes no array -/
+example [Trig ℚ] :
+    let s : State (NV ℚ) := { State.empty with
+      fa := fun a => if a = "status_values" then
+        ([0, -1, -1, -10000000000000000000000, -10000000000000000000000, -10000000000000000000000, 0, -10000000000000000000000,
+          0, 0, 0, 0, 0, 0, 0, -10000000000000000000000] : List ℚ).map some else [],
+      ia := fun a => if a = "status_struct" then [1, -1, -1, -1,  1, -1, -1, -1] else [],
+      shp := fun a => if a = "status_values" then [2, 8] else if a = "status_struct" then [2, 4] else [],
+      ienv := fun _ => 0,
+      fenv := fun v => if v = "_max_grad_in_status_struct101$distance" then some 1 else some 0 }
+    (exec 5 (.scope qryLoop) s).ctl = .run ∧ (exec 5 (.scope qryLoop) s).fa = s.fa := by
+  intro s
+  have hL : ILVs.Linked (s.ia "status_struct") 2 (-1) (.node .nil 0 .nil) := by
+    simp [s, ILVs.Linked, ILVs.nAt, ILVs.Sh.ptr]
+  obtain ⟨ie, fe, be, h, _⟩ := generated_query_contract (F := NV ℚ) s 5 2 (.node .nil 0 .nil) rfl
+    ⟨rfl, rfl, rfl, rfl, by decide⟩ hL (by decide) rfl (by simp [s, ILVs.vAt, ILVs.smallest])
+    (by
+      intro nd hnd
+      simp [s, ILVs.predsOf, ILVs.absT, ILVs.nodeAt, ILVs.vAt, qP, ILVs.fv_lt, Viewshed.Tree.toList] at hnd ⊢
+      rw [hnd]
+      simp [ILVs.fv_lt])
+    (by decide)
+  rw [h]
+  exact ⟨rfl, rfl⟩
+
 /-- **the sweep by induction over the event list -- what is missing** (PARTIAL): the iteration theorems compose into "the
-    generated sweep is the model's sweep `runT` over `sweepOps`" once (i) the three contracts are discharged for the inlined
-    copies (a renaming lemma for `exec` would carry `vsQuery_refines`; `_insert_into_tree` / `_delete_from_tree` need their
-    fixup loops, section 7), (ii) the idle-stack invariant (the rows above the stack height are exactly the rows not in the
-    tree) is carried through the two loops, (iii) `sweep_discipline` is used to discharge "the key is in the tree" at EXIT /
-    CENTER and "the key is not" at ENTER.  What IS established unconditionally: the code around the tree routines. -/
+    generated sweep is the model's sweep `runT` over `sweepOps`" once (i) the two remaining contracts `InsContract` (for
+    `insFill`, `insLoop`) and `DelContract` (for `delLoop`) are discharged the way `generated_query_contract` discharges
+    `QryContract`: the copies ARE renamings of `Gen.IL.vsInsert.body` / `Gen.IL.vsDelete.body`
+    (`generated_tree_routines_are_renamings`); still to do: the duplicate check of their three tables (`TblOK`, as
+    `qryTbl_ok`), and the model-level step from `vsInsert_refines` (`rbInsertC`) / `vsDelete_refines` (`delPassArr` +
+    `rbDelFix`) to `Rebal (leafInsert …)` / `Rebal (delCore …)` for every number type, with the colour invariants as
+    preconditions (root black before insert; NIL colour cell 1 and all colour cells 0/1 before delete -- `vsInsert_refines`
+    does not restate the latter, so it must be strengthened for the two to chain), (ii) the idle-stack invariant (the rows
+    above the stack height are exactly the rows not in the tree) is carried through the two loops, (iii)
+    `sweep_discipline` is used to discharge "the key is in the tree" at EXIT / CENTER and "the key is not" at ENTER, and the
+    three run-time assertions stay hypotheses.  What IS established unconditionally: the code around the tree routines, the
+    query contract, and that all four copies are renamings. -/
 theorem generated_sweep_partial :
     Gen.IL.vsSweep.body = ILVs.seqK sweepSetup
       (.seq (fillLoop insFill) (.seq (.setI "nevents" (.dim "event_rcts" 0)) (.seq (evLoop insLoop delLoop qryLoop) .ret))) :=
